@@ -210,6 +210,22 @@ def gen_anchor_specs():
         g = ", ".join(f"({lean_str(k)}, {lean_str(t)})" for k, t in guards[rel])
         grows.append(f"  ({lean_str(rel)}, [{g}])")
     out += ",\n".join(grows) + "]\n\nend WP.Gen\n"
+    # the same table in a line format for the native executor's account-constraint experiments (family xadm)
+    txt = []
+    for s in specs:
+        txt.append(f"spec {s['name']}")
+        for fl in s["fields"]:
+            txt.append(f"field {fl['name']} {fl['kind']} {fl['ty'] or '-'}")
+            for k, v, _e in fl["attrs"]:
+                if k in ("address", "has_one", "constraint"):
+                    txt.append(f"attr {k} {v}")
+                elif k == "mut":
+                    txt.append("flag mut")
+        txt.append("end")
+    wdir = os.path.join(os.path.dirname(os.path.dirname(os.path.abspath(__file__))), "work")
+    os.makedirs(wdir, exist_ok=True)
+    with open(os.path.join(wdir, "specs.txt"), "w") as fh:
+        fh.write("\n".join(txt) + "\n")
     return write_if_changed("AnchorSpecs.lean", out), specs
 
 
